@@ -45,6 +45,9 @@ def main():
         if r:
             roots[os.path.basename(s)] = r
     tasks = [(s, r, c) for s, r in roots.items() for c in CHECKS]
+    if '--own' in sys.argv:
+        # only the check of the seed's own property (regression run after a strengthening round); merged into the matrix
+        tasks = [(s, r, s[:3]) for s, r in roots.items()]
     res = {s: {} for s in roots}
     try:
         with cf.ThreadPoolExecutor(jobs) as ex:
@@ -54,9 +57,13 @@ def main():
         for r in roots.values():
             shutil.rmtree(r, ignore_errors=True)
         subprocess.run("find /verif/replays -name '*.json' -delete", shell=True)
-    if '--only' in sys.argv and os.path.exists('/verif/seeded/MATRIX.json'):
+    if ('--only' in sys.argv or '--own' in sys.argv) and os.path.exists('/verif/seeded/MATRIX.json'):
         old = json.load(open('/verif/seeded/MATRIX.json'))
-        old.update(res)
+        for k, v in res.items():
+            if '--own' in sys.argv:
+                old.setdefault(k, {}).update(v)
+            else:
+                old[k] = v
         res = old
     json.dump(res, open('/verif/seeded/MATRIX.json', 'w'), indent=1, sort_keys=True)
     for s in sorted(res):
